@@ -99,8 +99,24 @@ fn repr<const N: usize, const M: usize>(lo: isize, hi: isize) {
     core::mem::forget(d);
 }
 
+// Digraphs on 3 vertices with 0..=3 arcs (residues 0..3 of the 4x-unrolled loop), weights -2..=2, every source.
+// @verif prop=C07 tier=quick fl=f2 role=sparse/small-weights t=1500 mem=14
+#[cfg_attr(kani, kani::proof)]
+#[cfg_attr(kani, kani::unwind(6))]
+pub fn c07_sparse_n3_m3_w2() {
+    sparse::<3, 3>(-2, 2);
+}
+
+// 0..=4 arcs (one full unrolled block), weights -2..=2.
+// @verif prop=C07 tier=quick fl=f2 role=sparse/small-weights t=2400 mem=16
+#[cfg_attr(kani, kani::proof)]
+#[cfg_attr(kani, kani::unwind(6))]
+pub fn c07_sparse_n3_m4_w2() {
+    sparse::<3, 4>(-2, 2);
+}
+
 // Digraphs on 3 vertices with 0..=5 arcs (every residue mod 4 of the 4x-unrolled loop), weights -8..=8, every source.
-// @verif prop=C07 tier=quick fl=f2 role=sparse/small-weights t=1800 mem=14
+// @verif prop=C07 tier=thorough fl=f2 role=sparse/small-weights t=3600 mem=24
 #[cfg_attr(kani, kani::proof)]
 #[cfg_attr(kani, kani::unwind(7))]
 pub fn c07_sparse_n3_m5() {
@@ -116,15 +132,23 @@ pub fn c07_sparse_n3_m6() {
 }
 
 // Large non-negative weights (0..2^61): path sums fit in isize, distances beyond isize::MAX / 4 occur.
-// @verif prop=C07 tier=quick fl=f2 role=sparse/large-weights t=1200 mem=14
+// @verif prop=C07 tier=thorough fl=f2 role=sparse/large-weights t=3600 mem=24
 #[cfg_attr(kani, kani::proof)]
 #[cfg_attr(kani, kani::unwind(6))]
 pub fn c07_sparse_large_n3_m4() {
     sparse::<3, 4>(0, 1 << 61);
 }
 
+// Through AdjacencyListWeighted<isize> (map model), <= 2 arcs on 3 vertices, weights -2..=2.
+// @verif prop=C07 tier=quick fl=f2 feat=map4 role=repr/small-weights t=1500 mem=20
+#[cfg_attr(kani, kani::proof)]
+#[cfg_attr(kani, kani::unwind(8))]
+pub fn c07_repr_n3_m2_w2() {
+    repr::<3, 2>(-2, 2);
+}
+
 // Through AdjacencyListWeighted<isize> (map model), <= 4 arcs on 3 vertices.
-// @verif prop=C07 tier=quick fl=f2 feat=map4 role=repr/small-weights t=1200 mem=14
+// @verif prop=C07 tier=thorough fl=f2 feat=map4 role=repr/small-weights t=3600 mem=30
 #[cfg_attr(kani, kani::proof)]
 #[cfg_attr(kani, kani::unwind(10))]
 pub fn c07_repr_n3_m4() {
